@@ -25,7 +25,10 @@ LEVEL_NOTE = ("bounded and exact-arithmetic only: lattices of 3-6 values per axi
               "the default-constructed empty box - for an inverted box other than the default one only contains() = false, empty() = true and the "
               "emptiness of intersectionOf are constrained (the comparison formulas of disjoint / extend do not describe its empty point set; TLC "
               "exhibits the counter-example in BoxAlgebraMC); size / center / area / volume / clamp only for non-empty boxes, integer center() "
-              "only for even sums, scaling only by non-negative factors (a negative factor inverts the bounds); intersectRayBox: integer origins, "
+              "only for even sums, scaling only by non-negative factors (a negative factor inverts the bounds); boxes without points under scaling / "
+              "translation: positive factors and every translation must leave them without points (empty(), contains nothing, default empty box "
+              "still the identity of extend; both operand orders - the only overloads are range*T, T*range, range+T, T+range), a zero factor on "
+              "them is unconstrained (inf*0), the integer default empty box only with factor 1 / translation 0 (anything else overflows); intersectRayBox: integer origins, "
               "direction components in -2..2, probes at least 2^-13 away from every face (band 2^-14 = 2^-18 relative to 16), grazing rays "
               "unconstrained; rays against boxes without points (default-constructed empty, inverted): the returned range must be empty() - its "
               "bounds are free; xfmBounds: containment only, tightness is "
@@ -44,6 +47,7 @@ PADDED = ("fa", "ia")
 MAPPED_QUICK = [("i", "far"), ("f", "far"), ("f", "tenth"), ("f", "sub"), ("f", "huge"), ("ui", "far"), ("uc", "far"), ("s", "far"), ("l", "far")]
 MAPPED_THOROUGH = MAPPED_QUICK + [("d", "far"), ("d", "tenth"), ("d", "sub"), ("d", "huge"), ("fa", "sub"), ("ia", "far")]
 COMPARE_ONLY = ("Points", "Pair", "PairInv")
+EMPTY_OPS = ("ScaleEmpty", "TranslateEmpty", "ScalePair", "TranslatePair")     # scaling / translation of boxes without points
 
 
 def type_name(variant, d, vmap="id"):
@@ -145,8 +149,10 @@ def gen_jobs(quick):
             ("vec", 1, -2, 3, "all", lv), ("vec", 2, -1, 2, "all", lv), ("vec", 3, -1, 1, "all", lv), ("vec", 4, 0, 1, "all", lv),
             ("xfm", 3, 0, 1, "all", lv),
             ("big", 1, 0, 0, "all", lv), ("big", 2, 0, 0, "all", lv), ("big", 3, 0, 0, "all", lv), ("big", 4, 0, 0, "all", lv),
+            ("emptyops", 1, 0, 0, "all", lv), ("emptyops", 2, 0, 0, "all", lv), ("emptyops", 3, 0, 0, "all", lv), ("emptyops", 4, 0, 0, "all", lv),
         ]
     return [
+        ("emptyops", 1, 0, 0, "all", lv), ("emptyops", 2, 0, 0, "all", lv), ("emptyops", 3, 0, 0, "all", lv), ("emptyops", 4, 0, 0, "all", lv),
         ("big", 1, 0, 0, "all", lv), ("big", 2, 0, 0, "all", lv), ("big", 3, 0, 0, "all", lv), ("big", 4, 0, 0, "all", lv),
         ("box", 1, -2, 3, "all", lv), ("box", 2, -2, 3, "all", lv), ("box", 3, -1, 1, "all", lv), ("box", 4, 0, 1, "all", lv),
         ("pair", 1, -2, 3, "all", lv), ("pair", 2, -2, 2, "all", lv), ("pair", 3, -1, 1, "all", lv), ("pair", 3, -1, 2, "cover", lv),
@@ -193,6 +199,14 @@ def applicable(case, variant):
         return False              # coordinates beyond 2^24 are not representable in float
     if variant in PADDED and d != 3:
         return False
+    if a in EMPTY_OPS and variant in ("i", "ia", "l"):
+        # integer element types: no fractional factors; the default empty box (INT_MAX, INT_MIN) only with the factor 1 and the
+        # translation 0 - every other one overflows (not defined, not constrained)
+        arg = case["arg"]
+        if arg["den"] != 1:
+            return False
+        if a in ("ScaleEmpty", "TranslateEmpty") and arg["lo"][0] == 1000000 and any(x != (1 if a == "ScaleEmpty" else 0) for x in arg["v"]):
+            return False
     if variant == "fa":
         return a != "Ray"
     if variant in ("i", "ia", "l"):
@@ -424,11 +438,27 @@ def run(chk, replay=None):
     chk.cov["case_classes"] = ops
     need = {"Unary": ["empty-default", "inverted", "point", "flat", "solid"], "Points": ["empty-default", "inverted", "point", "flat", "solid"],
             "Center": ["even", "odd"], "Pair": ["a-empty", "b-empty", "both-empty", "equal", "apart", "touching", "nested", "overlapping"],
-            "PairInv": ["inverted-operand"], "Scale": ["flat", "solid"], "Translate": ["flat", "solid"], "Xfm": ["flat", "solid", "singular-map,solid"], "MeasureBig": ["beyond-2^24"]}
+            "PairInv": ["inverted-operand"], "Scale": ["flat", "solid"], "Translate": ["flat", "solid"], "Xfm": ["flat", "solid", "singular-map,solid"], "MeasureBig": ["beyond-2^24"],
+            "ScaleEmpty": ["empty-default", "inverted", "disjoint-intersection"], "TranslateEmpty": ["empty-default", "inverted", "disjoint-intersection"],
+            "ScalePair": ["apart", "touching"], "TranslatePair": ["apart", "touching"]}
     for op, cl in need.items():
         for k in cl:
             if not ops.get(op, {}).get(k):
                 raise tla.InfraError("vacuity guard: no %s case of class %s was generated" % (op, k))
+    # boxes without points under scaling / translation: per dimension and kind of box at least 4 factors (incl. a fractional and a large one)
+    # and 3 translations; per dimension >= 2 at least 12 separated and 4 touching pairs per operation
+    for d in (1, 2, 3, 4):
+        for op, least in (("ScaleEmpty", 4), ("TranslateEmpty", 3)):
+            for kind in ("empty-default", "inverted", "disjoint-intersection"):
+                sel = [c for c in cases if c["a"] == op and c["d"] == d and c["cls"] == kind]
+                if len(sel) < least or (op == "ScaleEmpty" and not (any(c["arg"]["den"] == 2 for c in sel) and any(max(c["arg"]["v"]) >= 1000 for c in sel))):
+                    raise tla.InfraError("vacuity guard: too few %s cases for %s boxes in dimension %d (%d)" % (op, kind, d, len(sel)))
+        if d >= 2:
+            for op in ("ScalePair", "TranslatePair"):
+                for kind, least in (("apart", 12), ("touching", 4)):
+                    n = sum(1 for c in cases if c["a"] == op and c["d"] == d and c["cls"] == kind)
+                    if n < least:
+                        raise tla.InfraError("vacuity guard: too few %s(%s) cases in dimension %d (%d)" % (op, kind, d, n))
     rcls = {}
     for rs in rays:
         for c in rs:
@@ -474,7 +504,9 @@ def run(chk, replay=None):
     fns = [(lambda sub, v=v: replay_group(sub, exe, cases, v, select=base_select(v))) for v in variants]
     fns += [(lambda sub, t=t, m=m, j=j: replay_group(sub, exe, cases, t, vmap=m, select=mapped_select(j))) for j, (t, m) in enumerate(mapped)]
     # integer coordinates beyond 2^24 on the wide types that are not among the base variants of this tier
-    fns += [(lambda sub, v=v: replay_group(sub, exe, cases, v, select=lambda c: c["a"] == "MeasureBig")) for v in (["l", "d"] if quick else ["l"])]
+    # ... and boxes without points under scaling / translation on int64 (and double, which the quick tier has no base run for)
+    fns += [(lambda sub, v=v: replay_group(sub, exe, cases, v, select=lambda c: c["a"] == "MeasureBig" or c["a"] in EMPTY_OPS))
+            for v in (["l", "d"] if quick else ["l"])]
     fns += [(lambda sub, v=v: xfm_tightness(sub, exe, cases, v)) for v in variants if v not in ("i", "ia")]
     for rs in rays_empty:           # float AND double in both tiers
         for v in ("f", "d"):
@@ -493,7 +525,7 @@ def run(chk, replay=None):
         mc_pool.shutdown(wait=True)
         mc_sub.merge()
 
-    chk.require_actions(["Unary", "Center", "Points", "Pair", "PairInv", "Scale", "Translate", "Xfm", "MeasureBig"])
+    chk.require_actions(["Unary", "Center", "Points", "Pair", "PairInv", "Scale", "Translate", "Xfm", "MeasureBig"] + list(EMPTY_OPS))
     inst = chk.cov.get("instantiations", {})
     for t, m in mapped:              # vacuity guard: every (element type, value map) instantiation was exercised in dimension 3
         if not inst.get(type_name(t, 3, m)):
